@@ -136,6 +136,14 @@ class Verifier:
                 continue
             if idx == 0 and fi.cls is not None and fi.kind in ("method", "property") and p.arg == "self":
                 classes = self.receiver_classes(fi, ex, k)
+                if not classes and fi.cls.name in ("Processor",):
+                    # abstract base meant to be subclassed by users: verified for an arbitrary subclass that keeps this
+                    # method; the abstract hooks are called through their (assumed) contracts
+                    v = SV(TRefT(fi.cls), smt.fresh_const("self", smt.Ref))
+                    st.assume(v.z != smt.NONE, smt.born(v.z) <= 0)
+                    ex.set_known_class(v, fi.cls, st)
+                    env[p.arg] = v
+                    continue
                 if not classes:
                     raise NoReceiver(f"no provided concrete class uses {fi.qualname} (reachable only through user-defined subclasses)")
                 v = SV(TRefT(fi.cls), smt.fresh_const("self", smt.Ref))
